@@ -18,20 +18,20 @@ RULE = ("corpus = standard-library code objects containing a with statement (45 
 CONFIG = dict(
     coq=["C02"], level="proof",
     claim=("Coq theorem (certificate soundness, by induction over all executions of an abstract machine for the "
-           "3.12 with-protocol): for every code object whose certificate Coq's checker accepts, the model of "
+           "3.11/3.12 with-protocol): for every code object whose certificate Coq's checker accepts, the model of "
            "stackscope's trickery analysis returns exactly the entered-but-not-exited managers at every suspension "
            "point; the certificate check runs on every corpus code object on every run, the analysis model is compared "
            "with the real functions at every running-observation offset, and a runtime ground-truth leg compares real "
            "Frame.contexts with logging managers."),
     design_ref="DESIGN.md section 5 C01/C02/C20",
-    trusted_base=["M_WithMachine.v is a hand-written model of CPython 3.12's with/async-with bytecode semantics (validated by "
+    trusted_base=["M_WithMachine.v is a hand-written model of CPython 3.12's and 3.11's with/async-with bytecode semantics (validated by "
                   "the ground-truth runtime leg and by the fact that all corpus code objects are explained by it)",
-                  "M_Analysis.v models _lowlevel.py's 3.11+/3.12 branch; compared with the real functions at observation offsets",
+                  "M_Analysis.v models _lowlevel.py's 3.11 and 3.12 branches; compared with the real functions at observation offsets",
                   "harness/withmachine.py's translation of code objects (via dis) to abstract code"],
     assumptions=["the program space is sampled (generated programs + standard library); proved for all executions of each checked code object",
                  "awaitables returned by __aenter__/__aexit__ are coroutine objects (no Python-level __await__ runs inside GET_AWAITABLE)",
-                 "CPython 3.12.1 bytecode; 3.9-3.11 are covered by the runtime leg only"],
-    unproved_legs=["CPython 3.9/3.10/3.11: runtime ground-truth leg only (no Coq model of their bytecode)",
+                 "Coq instances for CPython 3.12.1 and 3.11.7 bytecode (version parameter of the machine and of the analysis model); 3.9/3.10 (block stack) are covered by the runtime leg only"],
+    unproved_legs=["CPython 3.9/3.10: runtime ground-truth leg only (no Coq model of the block-stack code path)",
                    "inspect_frame's ctypes reads are not modelled; the chain walk and slot arithmetic are (M_Analysis.blocks/slot)"],
     timeout={"quick": 1200, "thorough": 5400},
 )
